@@ -1,7 +1,6 @@
 package main
 
 import (
-	"os"
 	"fmt"
 	"go/token"
 	"go/types"
@@ -383,9 +382,6 @@ func runC14(c *Ctx) {
 		// count = payload / 2^k, however the division is written
 		zl := &Polyizer{}
 		lenP := zl.Of(ms.Len)
-		if os.Getenv("FFC_DBG") != "" {
-			fmt.Fprintf(os.Stderr, "DBG len %s\n", lenP.String())
-		}
 		var fi fdivInfo
 		nf := 0
 		for mono, cf := range lenP {
